@@ -11,7 +11,8 @@
 //     with a nil error between the transfer and the record write;
 //   - ActivateVotingPeriod: the queue keys, and whether the inactive entry is removed unconditionally;
 //   - the expression that keys the custom-parameter lookups;
-//   - Tally: order of the early-return checks.
+//   - Tally: order of the early-return checks;
+//   - checkProposalMsgs (msg_server.go): which expression is compared between consecutive messages.
 //
 // Fails loudly when a shape it expects is gone.
 package main
@@ -136,6 +137,7 @@ func main() {
 	deposit := parse(filepath.Join(repo, "x/gov/keeper/deposit.go"))
 	proposal := parse(filepath.Join(repo, "x/gov/keeper/proposal.go"))
 	tally := parse(filepath.Join(repo, "x/gov/keeper/tally.go"))
+	msgServer := parse(filepath.Join(repo, "x/gov/keeper/msg_server.go"))
 
 	facts := map[string]string{}
 
@@ -469,13 +471,77 @@ func main() {
 	}
 	facts["sh_tally_checks"] = "[" + strings.Join(checks, "; ") + "]"
 
+	// ---------------------------------------------------------------- checkProposalMsgs
+	cp := funcDecl(msgServer, "checkProposalMsgs")
+	{
+		var loop *ast.RangeStmt
+		ast.Inspect(cp.Body, func(x ast.Node) bool {
+			if r, ok := x.(*ast.RangeStmt); ok && loop == nil {
+				loop = r
+			}
+			return true
+		})
+		if loop == nil || loop.Value == nil {
+			die("checkProposalMsgs: no range loop over the messages")
+		}
+		if len(cp.Type.Params.List) != 1 || str(cp.Type.Params.List[0].Type) != "[]sdk.Msg" || str(loop.X) != str(cp.Type.Params.List[0].Names[0]) {
+			die("checkProposalMsgs: expected one []sdk.Msg parameter ranged over")
+		}
+		want := "sdk.MsgTypeURL(" + str(loop.Value) + ")"
+		// the comparison: the variable carried from the previous message against an expression of this one
+		var cmpArg, carried ast.Expr
+		fold := false
+		var carryVar string
+		ast.Inspect(loop.Body, func(x ast.Node) bool {
+			switch n := x.(type) {
+			case *ast.CallExpr:
+				if str(n.Fun) == "strings.EqualFold" && len(n.Args) == 2 && cmpArg == nil {
+					carryVar, cmpArg, fold = str(n.Args[0]), n.Args[1], true
+				}
+			case *ast.BinaryExpr:
+				if (n.Op == token.NEQ || n.Op == token.EQL) && cmpArg == nil && str(n.Y) != `""` && str(n.X) != `""` && str(n.Y) != "nil" {
+					carryVar, cmpArg = str(n.X), n.Y
+				}
+			}
+			return true
+		})
+		if cmpArg == nil {
+			die("checkProposalMsgs: no comparison of consecutive messages found")
+		}
+		for _, st := range loop.Body.List {
+			if a, ok := st.(*ast.AssignStmt); ok && len(a.Lhs) == 1 && str(a.Lhs[0]) == carryVar {
+				carried = a.Rhs[0]
+			}
+		}
+		// local aliases: v := <expr>
+		alias := map[string]string{}
+		for _, st := range loop.Body.List {
+			if a, ok := st.(*ast.AssignStmt); ok && a.Tok == token.DEFINE && len(a.Lhs) == 1 {
+				alias[str(a.Lhs[0])] = str(a.Rhs[0])
+			}
+		}
+		res := func(e ast.Expr) string {
+			t := str(e)
+			if v, ok := alias[t]; ok {
+				return v
+			}
+			return t
+		}
+		if carried != nil && res(cmpArg) == want && res(carried) == want {
+			facts["sh_mixed_compare"] = "CmpTypeURL"
+		} else {
+			facts["sh_mixed_compare"] = "CmpOther"
+		}
+		facts["sh_mixed_fold"] = b(fold)
+	}
+
 	// ---------------------------------------------------------------- output
 	fields := []string{"sh_eb_order", "sh_payout_guard", "sh_dequeue_key_voting_end", "sh_cache_before_loop", "sh_cache_in_loop",
 		"sh_exec_on_cache", "sh_err_plain_assign", "sh_break_on_err", "sh_write_in_loop", "sh_write_in_ok_branch", "sh_write_elsewhere",
 		"sh_passed_in_ok_branch", "sh_failed_in_else_branch", "sh_conv_requeue_after_reassign", "sh_conv_period_default",
 		"sh_dep_order", "sh_dep_ok_returns_before_record",
 		"sh_act_inactive_remove_unconditional", "sh_act_inactive_key_deposit_end", "sh_act_active_key_voting_end",
-		"sh_egf_key", "sh_type_key", "sh_tally_checks"}
+		"sh_egf_key", "sh_type_key", "sh_tally_checks", "sh_mixed_compare", "sh_mixed_fold"}
 	var sb strings.Builder
 	sb.WriteString("(* generated by harness/gen_c15 from x/gov/abci.go and x/gov/keeper/{deposit,proposal,tally}.go; do not edit *)\n")
 	sb.WriteString("From Coq Require Import ZArith List Bool.\nFrom FxV Require Import model.M_GovShape.\nImport ListNotations.\nOpen Scope Z_scope.\n\n")
